@@ -5,6 +5,8 @@ type nat =
 | O
 | S of nat
 
+val option_map : ('a1 -> 'a2) -> 'a1 option -> 'a2 option
+
 type ('a, 'b) sum =
 | Inl of 'a
 | Inr of 'b
@@ -12,6 +14,8 @@ type ('a, 'b) sum =
 val fst : ('a1 * 'a2) -> 'a1
 
 val snd : ('a1 * 'a2) -> 'a2
+
+val length : 'a1 list -> nat
 
 val app : 'a1 list -> 'a1 list -> 'a1 list
 
@@ -67,6 +71,11 @@ module type UsualOrderedTypeFull =
   val compare : t -> t -> comparison
 
   val eq_dec : t -> t -> bool
+ end
+
+module Nat :
+ sig
+  val compare : nat -> nat -> comparison
  end
 
 module Pos :
@@ -167,6 +176,8 @@ val n_of_digits : bool list -> n
 
 val n_of_ascii : ascii -> n
 
+val hd_error : 'a1 list -> 'a1 option
+
 val nth : nat -> 'a1 list -> 'a1 -> 'a1
 
 val last : 'a1 list -> 'a1 -> 'a1
@@ -175,11 +186,17 @@ val rev0 : 'a1 list -> 'a1 list
 
 val map : ('a1 -> 'a2) -> 'a1 list -> 'a2 list
 
+val fold_left : ('a1 -> 'a2 -> 'a1) -> 'a2 list -> 'a1 -> 'a1
+
 val forallb : ('a1 -> bool) -> 'a1 list -> bool
+
+val filter : ('a1 -> bool) -> 'a1 list -> 'a1 list
 
 module Z :
  sig
   val compare : z -> z -> comparison
+
+  val eqb : z -> z -> bool
 
   val eq_dec : z -> z -> bool
  end
@@ -638,3 +655,50 @@ val t_subset_of : ('a1, 'a2) vSOps -> 'a1 term -> 'a1 term -> bool
 val t_relation_with : ('a1, 'a2) vSOps -> 'a1 term -> 'a1 term -> relation
 
 val t_eqb : ('a1, 'a2) vSOps -> 'a1 term -> 'a1 term -> bool
+
+type pkg = n
+
+type 'vS depmap = (pkg * 'vS) list
+
+type 'vS provider = (pkg * (z * 'vS depmap) list) list
+
+val empty_provider : 'a1 provider
+
+val dm_insert : pkg -> 'a1 -> 'a1 depmap -> 'a1 depmap
+
+val collect : (pkg * 'a1) list -> 'a1 depmap
+
+val inner_set :
+  z -> 'a1 depmap -> (z * 'a1 depmap) list -> (z * 'a1 depmap) list
+
+val inner_get : z -> (z * 'a1 depmap) list -> 'a1 depmap option
+
+val outer_get : pkg -> 'a1 provider -> (z * 'a1 depmap) list option
+
+val outer_set : pkg -> (z * 'a1 depmap) list -> 'a1 provider -> 'a1 provider
+
+val add_dependencies :
+  'a1 provider -> pkg -> z -> (pkg * 'a1) list -> 'a1 provider
+
+val packages : 'a1 provider -> pkg list
+
+val versions : 'a1 provider -> pkg -> z list option
+
+val dependencies : 'a1 provider -> pkg -> z -> 'a1 depmap option
+
+val choose_version :
+  ('a1 -> z -> bool) -> 'a1 provider -> pkg -> 'a1 -> z option
+
+val prioritize_count : ('a1 -> z -> bool) -> 'a1 provider -> pkg -> 'a1 -> nat
+
+val priority_compare : nat -> nat -> comparison
+
+type 'vS dependencies_result =
+| Unavailable
+| Available of 'vS depmap
+
+val get_dependencies : 'a1 provider -> pkg -> z -> 'a1 dependencies_result
+
+type 'vS op = (pkg * z) * (pkg * 'vS) list
+
+val run : 'a1 op list -> 'a1 provider
